@@ -162,12 +162,16 @@ def _names(node) -> set[str]:
     return {n.id for n in ast.walk(node) if isinstance(n, ast.Name)}
 
 
-def _instantiate(h: Helper, binds, caller_names: set[str], at: ast.AST, hbody=None):
-    """copy of the helper body with parameters substituted; returns (prefix assignments, body)"""
+def _instantiate(h: Helper, binds, caller_names: set[str], at: ast.AST, hbody=None, inplace=frozenset()):
+    """copy of the helper body with parameters substituted; returns (prefix assignments, body).
+    inplace: parameters that the call site threads through a caller variable of the same name (`x = h(.., x, ..)`
+    with `return x`): the helper's rebinding of the parameter *is* the caller's variable"""
     body = copy.deepcopy(h.body) if hbody is None else hbody
     stored = _stored(body)
     direct, prefix = {}, []
     for p, a in binds.items():
+        if p in inplace:
+            continue
         if p in stored:
             # the helper rebinds its parameter: bind it explicitly
             prefix.append(ast.Assign(targets=[ast.Name(id=p, ctx=ast.Store())], value=copy.deepcopy(a), lineno=at.lineno, col_offset=at.col_offset))
@@ -189,6 +193,8 @@ def _instantiate(h: Helper, binds, caller_names: set[str], at: ast.AST, hbody=No
     for a in binds.values():
         arg_names |= _names(a)
     for loc in stored | bound_by_prefix:
+        if loc in inplace:
+            continue
         if loc in caller_names or (loc in arg_names and loc not in binds):
             ren[loc] = loc + "__h"
     if ren:
@@ -439,7 +445,12 @@ def inline_new_helpers(tree: ast.Module, ref_defs: set[str], ref_nested: dict[st
             if mode == "assign":
                 if len(h.returns) != 1 or h.returns[0] is not h.body[-1] or h.returns[0].value is None:
                     return None
-            prefix, body = _instantiate(h, binds, caller_names, st, hbody)
+            inplace = set()
+            if mode == "assign" and isinstance(st.targets[0], ast.Name) and isinstance(h.body[-1], ast.Return) and isinstance(h.body[-1].value, ast.Name):
+                x, rp = st.targets[0].id, h.body[-1].value.id
+                if rp == x and isinstance(binds.get(rp), ast.Name) and binds[rp].id == x:
+                    inplace.add(rp)
+            prefix, body = _instantiate(h, binds, caller_names, st, hbody, frozenset(inplace))
             if body is None:
                 return None
             if mode == "return":
